@@ -283,15 +283,38 @@ func VerifC08_DeploymentInProgress() {
 	oldObj.Annotations[util.InRolloutProgressingAnnotation] = `{"rolloutName":"ro-a"}`
 	oldObj.Spec.Paused = true
 	oldObj.Spec.Strategy.Type = apps.RollingUpdateDeploymentStrategyType
-	partitionStyle := verifrt.Bool("partitionStyle")
+	// style: 0 canary (default branch), 1 partition style, 2 blue-green
+	style := verifrt.IntRange("style", 0, 2)
+	partitionStyle := style == 1
 	if partitionStyle {
 		st := appsv1alpha1.DeploymentStrategy{RollingStyle: appsv1alpha1.PartitionRollingStyle, Partition: intstr.FromInt(verifrt.IntRange("partition", 0, 100))}
 		oldObj.Annotations[appsv1alpha1.DeploymentStrategyAnnotation] = util.DumpJSON(&st)
 		oldObj.Spec.Strategy.Type = apps.RecreateDeploymentStrategyType
 	}
+	if style == 2 {
+		oldObj.Annotations[appsv1beta1.OriginalDeploymentStrategyAnnotation] = `{"maxSurge":"25%","maxUnavailable":"25%"}`
+		oldObj.Spec.Paused = false
+	}
+	oldA, newA, hasID, idChanged := c08Annotations("dep")
+	for k, v := range oldA {
+		oldObj.Annotations[k] = v
+	}
 	oldObj.Spec.Template.Labels = map[string]string{"app": "w", "ver": "v2"}
 	newObj := oldObj.DeepCopy()
-	newObj.Spec.Paused = verifrt.Bool("new.paused")
+	delete(newObj.Annotations, appsv1beta1.RolloutIDLabel)
+	for k, v := range newA {
+		newObj.Annotations[k] = v
+	}
+	templateChanged := verifrt.Bool("new.templateChanged")
+	if templateChanged {
+		newObj.Spec.Template.Labels["ver"] = "v3"
+	}
+	// a release change while the release is in progress (continuous release / rollback): the rollout-id changed, or
+	// without rollout-id the pod template changed
+	releaseChange := (hasID && idChanged) || (!hasID && templateChanged)
+	if style != 2 {
+		newObj.Spec.Paused = verifrt.Bool("new.paused")
+	}
 	if verifrt.Bool("new.strategyRolling") {
 		newObj.Spec.Strategy.Type = apps.RollingUpdateDeploymentStrategyType
 	} else {
@@ -305,10 +328,25 @@ func VerifC08_DeploymentInProgress() {
 	if panicked {
 		return
 	}
-	verifrt.Assert(newObj.Spec.Paused, "C08.deployment.inprogress.unpauseCorrected")
-	if partitionStyle {
+	switch style {
+	case 1:
+		verifrt.Assert(newObj.Spec.Paused, "C08.deployment.inprogress.unpauseCorrected")
 		verifrt.Assert(newObj.Spec.Strategy.Type == apps.RecreateDeploymentStrategyType, "C08.deployment.inprogress.nativeControllerStaysDisabled")
-	} else {
+		// the advanced deployment controller is held back through the strategy annotation: a release change pauses it
+		got := util.GetDeploymentStrategy(newObj)
+		if releaseChange {
+			verifrt.Assert(got.Paused, "C08.deployment.inprogress.partitionStyleReleaseChangeHeldBack")
+		} else {
+			verifrt.Assert(!got.Paused, "C08.deployment.inprogress.partitionStyleNotPausedWithoutReleaseChange")
+		}
+		verifrt.Assert(got.Partition == util.GetDeploymentStrategy(oldObj).Partition, "C08.deployment.inprogress.partitionKept")
+	case 2:
+		verifrt.Assert(newObj.Spec.Strategy.Type == apps.RollingUpdateDeploymentStrategyType, "C08.deployment.inprogress.blueGreenStaysRollingUpdate")
+		if releaseChange {
+			verifrt.Assert(newObj.Spec.Paused, "C08.deployment.inprogress.blueGreenReleaseChangeHeldBack")
+		}
+	default:
+		verifrt.Assert(newObj.Spec.Paused, "C08.deployment.inprogress.unpauseCorrected")
 		verifrt.Assert(newObj.Spec.Strategy.Type == apps.RollingUpdateDeploymentStrategyType, "C08.deployment.inprogress.strategyNotRecreate")
 	}
 	verifrt.Cover("done")
